@@ -469,3 +469,64 @@ def iteraddcolumn(h):
                 ctx.oblige('iteraddcolumn: header = source header with the new field inserted at the index (default: appended); nothing after the last row',
                            z3.And(pre.len == 1, insert_spec(out_row(pre, 0), hdr, pos, field.t), res.out.len == 0))
         h.explore(body)
+
+
+# ------------------------------------------------------------------------------------------------ filldown
+@vc('C12.iterfilldown', functions=['petl.transform.fills.iterfilldown'], props=['C12', 'C03'],
+    assumptions=['one fill field given by name (several fields: the same loop body per field); rectangular table',
+                 'hybrid loop rule: the fill state is a function of the position (ghost function LNM = last non-missing value above), emission per row'])
+def iterfilldown(h):
+    """filldown(t, f): a missing cell of column f is replaced by the nearest non-missing value above it (the first data row's
+    value when there is none); every other cell, and every non-missing cell, is carried over unchanged; one row per row; the
+    rows handed out are never the running fill state (C03)."""
+    FD = 'petl.transform.fills.iterfilldown'
+
+    def body(ctx):
+        box = {}
+        LNM = z3.Function('LNM', z3.IntSort(), V)          # value to fill with BEFORE row k is processed
+
+        def c_of(ls):
+            fi = ls['fillindices']
+            return smt.ival(as_v(fi.items[0])) if hasattr(fi, 'items') else smt.ival(z3.Select(fi.arr, 0))
+
+        def axioms(c):
+            if 'ax' in box:
+                return
+            box['ax'] = True
+            k = smt.fresh_int('k')
+            cell = lambda r: z3.Select(src_row(S, r).arr, c)
+            ctx.facts.append(LNM(2) == cell(1))
+            ctx.facts.append(z3.ForAll([k], z3.Implies(k >= 2, LNM(k + 1) == z3.If(smt.py_eq(cell(k), missing.t), LNM(k), cell(k)))))
+
+        def inv(ls):
+            c = c_of(ls)
+            axioms(c)
+            fill = ls['fill']
+            fill = fill if isinstance(fill, Seq) else view_seq(fill)
+            return z3.And(ls.k.t >= 2, fill.len == src_row(S, 1).len, z3.Select(fill.arr, c) == LNM(ls.k.t))
+
+        def delta(ls, x, dout):
+            c = c_of(ls)
+            row = view_seq(x)
+            o = out_row(dout, 0)
+            q = smt.fresh_int('q')
+            want = lambda q_: z3.If(z3.And(q_ == c, smt.py_eq(z3.Select(row.arr, c), missing.t)), LNM(ls.k.t), z3.Select(row.arr, q_))
+            ctx.oblige('iterfilldown: one output row per row; a missing cell of the fill field gets the nearest non-missing value above, every other cell is unchanged',
+                       z3.And(dout.len == 1, o.len == row.len, z3.ForAll([q], z3.Implies(z3.And(0 <= q, q < o.len), z3.Select(o.arr, q) == want(q)))))
+        spec = LoopSpec(invariant=inv, delta=delta, label='rows', types={'fill': 'keep'})
+        spec.rebind = lambda ls: ls.interp.havoc_in_place(ls.env.lookup('fill'), 'fill')
+        it = h.interp(ctx, loops={(FD, 0): spec})
+        it.check_pulls = False
+        S = sym_table(ctx, 'S', nmin=1)
+        rows_are_sequences(ctx, S)
+        rectangular(ctx, S)
+        missing = sym_cell('missing')
+        res = run_generator(it, closure_of(it, FD), [S, ('f',), missing])
+        if res.exc is not None:
+            ctx.oblige('iterfilldown: only FieldSelectionError escapes (unknown fill field)', z3.BoolVal(res.exc.kind == 'FieldSelectionError'), res.exc.origin or '')
+            return
+        if getattr(ctx, 'after_loop', None):
+            pre = ctx.pre_loop_out
+            ctx.oblige('iterfilldown: the header, then the first data row unchanged, both once; nothing after the last row',
+                       z3.And(pre.len == 2, _t(row_eq(out_row(pre, 0), src_row(S, 0))), _t(row_eq(out_row(pre, 1), src_row(S, 1))), res.out.len == 0))
+    h.explore(body)
